@@ -99,4 +99,21 @@ example : splitComma "db/password,json".toList = ["db/password".toList, "json".t
     splitComma "k".toList = ["k".toList] ∧ splitComma ",json".toList = [[], "json".toList] ∧
     splitComma "k,other".toList = ["k".toList, "other".toList] := by decide
 
+/-! ### T1: functions the model transcribes, statement by statement (white space collapsed) -/
+
+def expected_Fields_Apply : List String := ["var errs []error", "for _, fi := range f.fields { fullName := path.Join(f.prefix, fi.secretName) if err := fi.apply(ctx, s, fullName); err != nil { errs = append(errs, fmt.Errorf(\"apply %q to field %q: %w\", fullName, fi.fieldName, err)) } }", "return errors.Join(errs...)"]
+
+/-- Apply: every field in turn, under `path.Join(prefix, name)`; a field's failure is collected and the next field still tried -/
+theorem fact_Fields_Apply_as_transcribed : Facts.body_Fields_Apply = expected_Fields_Apply := by rfl
+
+def expected_Fields_Secrets : List String := ["out := make([]string, len(f.fields))", "for i, fi := range f.fields { out[i] = path.Join(f.prefix, fi.secretName) }", "return out"]
+
+/-- Secrets: a fresh slice of the same joined names -/
+theorem fact_Fields_Secrets_as_transcribed : Facts.body_Fields_Secrets = expected_Fields_Secrets := by rfl
+
+def expected_fieldInfo_apply : List String := ["if f.isJSON { v, err := s.LookupSecret(ctx, fullName) if err != nil { return err } return json.Unmarshal(v.Get(), f.value.Interface()) }", "v, err := s.LookupSecret(ctx, fullName)", "if err != nil { return err }", "if f.unmarshal != nil { return f.unmarshal(v.Get()) }", "switch f.vtype { case bytesType: f.value.Elem().Set(reflect.ValueOf(bytes.Clone(v.Get()))) case stringType: f.value.Elem().Set(reflect.ValueOf(string(v.Get()))) case secretType: f.value.Elem().Set(reflect.ValueOf(v)) default: return fmt.Errorf(\"unexpected field type %v\", f.vtype) }", "return nil"]
+
+/-- one field: look the secret up (now, from this store), then JSON, the type's own unmarshaller, a private copy of the bytes, the string, or the handle -/
+theorem fact_fieldInfo_apply_as_transcribed : Facts.body_fieldInfo_apply = expected_fieldInfo_apply := by rfl
+
 end Setec.C20
